@@ -67,9 +67,11 @@ class TimegridRoot(Contract):
             # every step that fits before the end is there:  start + T*delta <= end < start + (T+1)*delta
             yield ('C19.grid.count', S.and_(S.le(s0 + T * d, e0), S.lt(e0, s0 + (T + 1) * d)))
             yield ('C19.dt', S.forall(T, lambda k: S.eq(dt.f(k), S.div(d, un))))
+            yield ('C12.dt.step_length_is_elapsed_time_in_main_units', S.forall(T, lambda k: S.eq(dt.f(k), S.div(d, un))))
         else:
             # step length = elapsed time to the next point (the last step runs to the point date_range dropped)
             yield ('C19.dt', S.forall(T, lambda k: S.implies(S.lt(k + 1, T), lambda: S.eq(dt.f(k), S.div(tpt(k + 1) - tpt(k), un)))))
+            yield ('C12.dt.step_length_is_elapsed_time_in_main_units', S.forall(T, lambda k: S.implies(S.lt(k + 1, T), lambda: S.eq(dt.f(k), S.div(tpt(k + 1) - tpt(k), un)))))
             yield ('C19.dt.positive', S.forall(T, lambda k: S.gt(dt.f(k), 0)))
         # cumulative time = prefix sums of the step lengths (both kinds)
         yield ('C19.Dt', S.forall(T, lambda k: S.eq(Dt.f(k), S.psum(lambda j: dt.f(j), 0, k + 1, pc))))
